@@ -87,8 +87,12 @@ KvVerdict(r) ==
 Upper(b) == IF b >= 97 /\ b <= 122 THEN b - 32 ELSE b
 IsCommand(f) ==
     /\ f.t = "array" /\ Len(f.items) >= 2 /\ \A i \in 1..Len(f.items) : f.items[i].t = "bulk"
+    \* (keys must be UTF-8: a DEL that names a key the server must refuse is not a command, and none of the keys it
+    \* names before that one may be deleted; ValidUtf8 is Resp.tla's in-scope approximation "all bytes < 128")
     /\ LET verb == [i \in 1..Len(f.items[1].b) |-> Upper(f.items[1].b[i])] n == Len(f.items) IN
-         \/ (verb = <<83, 69, 84>> /\ n = 3) \/ (verb = <<71, 69, 84>> /\ n = 2) \/ (verb = <<68, 69, 76>>)
+         \/ (verb = <<83, 69, 84>> /\ n = 3 /\ ValidUtf8(f.items[2].b))
+         \/ (verb = <<71, 69, 84>> /\ n = 2 /\ ValidUtf8(f.items[2].b))
+         \/ (verb = <<68, 69, 76>> /\ \A i \in 2..n : ValidUtf8(f.items[i].b))
 HasCommand(stream) ==
     LET d == Drain(stream, <<>>) IN \E i \in 1..Len(d.frames) : IsCommand(d.frames[i])
 
